@@ -108,7 +108,7 @@ def run(ctx):
               "threaded execution no longer runs self._execute under timeout(self.allowed_time, ...)",
               "the two roles cannot be derived; time limits are not enforced")
     tries = [t for t in ast.walk(ex) if isinstance(t, ast.Try) and any(
-        call_name(c) in ('exec', 'compile') for c in calls(ast.Module(body=t.body, type_ignores=[])))]
+        call_name(c) == 'exec' for c in calls(ast.Module(body=t.body, type_ignores=[])))]
     ctx.require(len(tries) == 1, "Sandbox._execute no longer has one try around exec")
     t = tries[0]
     student_stmts = []
@@ -173,10 +173,12 @@ def run(ctx):
     to = tmod.func('timeout')
     ctx.analysed_function(tmod, to)
     joins = [c for c in calls(to) if isinstance(c.func, ast.Attribute) and c.func.attr == 'join']
-    ok = len(joins) == 1 and len(joins[0].args) == 1 and norm(joins[0].args[0]) == to.args.args[0].arg
+    ok = len(joins) >= 1 and all(len(j.args) == 1 and not (isinstance(j.args[0], ast.Constant)
+                                                         and j.args[0].value is None) for j in joins) and \
+        any(norm(j.args[0]) == to.args.args[0].arg for j in joins)
     ctx.check(ok, 'R4', 'timeout:single-timed-join', tmod, joins[0] if joins else to,
-              "timeout() does not join exactly once with the finite duration (an un-timed join()/wait blocks forever "
-              "on a thread that swallows the injected exception)",
+              "timeout() joins the student thread without a finite timeout (an un-timed join()/wait blocks forever on a "
+              "thread that swallows the injected exception), or never waits for the allowed duration",
               "student code `while True: try: ... except BaseException: pass` makes run(threaded=True) hang")
     waits = [c for c in calls(to) if isinstance(c.func, ast.Attribute) and c.func.attr in ('wait', 'acquire', 'sleep')]
     ctx.check(not waits, 'R4', 'timeout:no-other-blocking', tmod, waits[0] if waits else to,
@@ -207,6 +209,12 @@ def run(ctx):
                    "applied to the grader role)")
     direct = [c for x in grader_stmts for c in calls(x) if is_self_call(c, '_stop_patches')]
     via = [c for x in grader_stmts for c in calls(x) if is_self_call(c, '_stop_mocking')]
+    ctx.check(bool(via) or bool(direct), 'R5', 'grader-arm:releases-at-all', mod,
+              grader_handlers[0] if grader_handlers else ewt,
+              "the timeout arm releases nothing: after a time-limit violation sys.stdout, sys.modules and time.sleep "
+              "stay patched until (and unless) the abandoned student thread unwinds by itself",
+              "a student thread that never reaches its handler (blocked on a lock, or `except BaseException: pass` in a "
+              "loop): run(threaded=True) returns with sys.stdout still the capture buffer")
     ctx.check(bool(via) and not direct, 'R5', 'grader-arm:releases-through-_stop_mocking', mod,
               direct[0] if direct else (grader_handlers[0] if grader_handlers else ewt),
               "the timeout arm calls _stop_patches() directly: the stdout frame pushed for the timed-out execution "
